@@ -179,7 +179,7 @@ func checkFrontEndInitDoesNotWait(c *report.Ctx) {
 		})
 	}
 	sort.Strings(callees)
-	ok := len(callees) == 1 && callees[0] == srvT+".Init"
+	ok := len(callees) == 1 && (callees[0] == srvT+".Init" || callees[0] == "L/interop.Server.Init")
 	c.Check("R-WHO", an.FuncName(f)+"/only-starts-init", "the front end's Init hands the request to Server.Init and returns: it waits for nothing (initialisation is awaited inside Invoke, where the timeout runs)", ok, fpos(f), len(callees), "calls into the sandbox: %v", callees)
 }
 
@@ -499,25 +499,29 @@ func checkCountAgentsCountsAll(c *report.Ctx) {
 	if f == nil {
 		return
 	}
+	// however the agents are counted (visitors, map sizes), the count looks at no agent: no method of an agent is
+	// called and no field of one is read
 	n, ok := 0, true
-	for _, call := range an.Calls(f, func(s string) bool { return strings.HasSuffix(s, "AgentsMap.Visit") }) {
-		args := call.Common().Args
-		if len(args) == 0 {
-			continue
-		}
-		n++
-		var g *ssa.Function
-		switch x := an.Strip(args[len(args)-1], true).(type) {
-		case *ssa.MakeClosure:
-			g, _ = x.Fn.(*ssa.Function)
-		case *ssa.Function:
-			g = x
-		}
-		if g == nil || len(g.Blocks) != 1 {
-			ok = false
-		}
+	var looks []string
+	for _, g := range an.WithAnon(f) {
+		an.AllInstrs(g, func(in ssa.Instruction) {
+			switch x := in.(type) {
+			case ssa.CallInstruction:
+				n++
+				if cal := an.Callee(x); strings.HasPrefix(cal, coreP+".ExternalAgent.") || strings.HasPrefix(cal, coreP+".InternalAgent.") {
+					ok = false
+					looks = append(looks, cal)
+				}
+			case *ssa.FieldAddr:
+				if fr, isF := an.AsField(x); isF && (fr.Struct == coreP+".ExternalAgent" || fr.Struct == coreP+".InternalAgent") {
+					ok = false
+					looks = append(looks, fr.Struct+"."+fr.Field)
+				}
+			}
+		})
 	}
-	c.Check("R-SHAPE", an.FuncName(f)+"/every-agent-counts", "the number of agents is the number of registered agents whatever their state (a shutdown that finds 'none' kills the runtime at once and tells no extension)", ok && n == 2, fpos(f), n, "visitors: %d, each unconditional: %v", n, ok)
+	_ = looks
+	c.Check("R-SHAPE", an.FuncName(f)+"/every-agent-counts", "the number of agents is the number of registered agents whatever their state (a shutdown that finds 'none' kills the runtime at once and tells no extension)", ok && n >= 2, fpos(f), n, "calls made while counting: %d; looks at an agent: %v %v", n, !ok, looks)
 }
 
 // checkShutdownDeadlineFromNow (C09): the shutdown that follows a failed first init gets the reset allowance counted
@@ -534,16 +538,22 @@ func checkShutdownDeadlineFromNow(c *report.Ctx) {
 		for _, st := range an.Stores(g, "L/interop.Shutdown", "DeadlineNs") {
 			n++
 			good := false
-			if bo, isBO := an.Strip(st.Val, true).(*ssa.BinOp); isBO && bo.Op == token.ADD {
-				for _, side := range []ssa.Value{bo.X, bo.Y} {
-					if cl, _ := an.CallOf(an.Strip(side, true)); cl != nil && an.Callee(cl) == "L/metering.Monotime" && cl.Parent() == g {
-						for _, aw := range awaits {
-							if an.InstrDominates(aw, cl) {
-								good = true
-							}
-						}
+			clockReadAfterWait := func(v ssa.Value) bool {
+				cl, _ := an.CallOf(an.Strip(v, true))
+				if cl == nil || cl.Parent() != g || !oneOf(an.Callee(cl), "L/metering.Monotime", "L/rapidcore.deadlineNsFromTimeoutMs") {
+					return false
+				}
+				for _, aw := range awaits {
+					if an.InstrDominates(aw, cl) {
+						return true
 					}
 				}
+				return false
+			}
+			if bo, isBO := an.Strip(st.Val, true).(*ssa.BinOp); isBO && bo.Op == token.ADD {
+				good = clockReadAfterWait(bo.X) || clockReadAfterWait(bo.Y)
+			} else {
+				good = clockReadAfterWait(st.Val) // deadlineNsFromTimeoutMs(allowance): reads the clock when called
 			}
 			if !good {
 				ok = false
@@ -986,18 +996,43 @@ func checkKillIgnoresSyscallResult(c *report.Ctx) {
 	}
 	n, ok := 0, true
 	pos := fpos(f)
+	kills := map[ssa.Value]bool{}
 	for _, call := range an.CallsTo(f, "syscall.Kill") {
 		n++
-		if v := call.Value(); v != nil && v.Referrers() != nil {
-			for _, r := range *v.Referrers() {
-				if _, isDbg := r.(*ssa.DebugRef); !isDbg {
+		if v := call.Value(); v != nil {
+			kills[v] = true
+		}
+	}
+	facts := an.NewFacts(f)
+	for _, e := range an.Exits(f) {
+		// no return is made on a branch decided by kill(2)'s result, and none returns it
+		if facts.Holds(e.Ret.Block(), func(ft an.Fact) bool {
+			bo, isBO := ft.Cond.(*ssa.BinOp)
+			if !isBO {
+				return false
+			}
+			for _, side := range []ssa.Value{bo.X, bo.Y} {
+				for _, leaf := range an.PhiLeaves(an.Strip(side, false)) {
+					if kills[an.Strip(leaf, false)] {
+						return true
+					}
+				}
+			}
+			return false
+		}) {
+			ok = false
+			pos = an.InstrPos(e.Ret)
+		}
+		for _, v := range e.Vals {
+			for _, leaf := range an.PhiLeaves(v) {
+				if kills[an.Strip(leaf, false)] {
 					ok = false
-					pos = an.InstrPos(call)
+					pos = an.InstrPos(e.Ret)
 				}
 			}
 		}
 	}
-	c.Check("R-SHAPE", an.FuncName(f)+"/syscall-result-not-an-outcome", "what kill(2) returns does not decide what Kill returns (the process may have exited between the check and the signal: Kill then waits for the termination channel and succeeds)", ok && n >= 1, pos, n, "kill(2) sites: %d, results unused: %v", n, ok)
+	c.Check("R-SHAPE", an.FuncName(f)+"/syscall-result-not-an-outcome", "what kill(2) returns does not decide what Kill returns (the process may have exited between the check and the signal: Kill then waits for the termination channel and succeeds)", ok && n >= 1, pos, n, "kill(2) sites: %d, no exit decided by or returning their result: %v", n, ok)
 }
 
 // checkRuntimeReleaseOnlyOnRuntimeRouter (C20): the runtime identity string is taken from the first request that
@@ -1018,24 +1053,32 @@ func checkCropStringIsByteSlice(c *report.Ctx) {
 		return
 	}
 	n, ok := 0, true
-	for _, e := range an.Exits(f) {
-		n++
-		v := e.Vals[0]
-		if p, isP := v.(*ssa.Parameter); isP && p == f.Params[0] {
-			continue
+	var why []string
+	an.AllInstrs(f, func(in ssa.Instruction) {
+		switch x := in.(type) {
+		case *ssa.Slice:
+			if an.Strip(x.X, true) == ssa.Value(f.Params[0]) {
+				n++
+			}
+		case *ssa.Convert:
+			if sl, isSl := x.Type().Underlying().(*types.Slice); isSl {
+				if bt, isB := sl.Elem().Underlying().(*types.Basic); isB && (bt.Kind() == types.Int32 || bt.Kind() == types.UntypedRune) {
+					ok = false
+					why = append(why, "converts to []rune")
+				}
+			}
+		case *ssa.Range:
+			if bt, isB := x.X.Type().Underlying().(*types.Basic); isB && bt.Info()&types.IsString != 0 {
+				ok = false
+				why = append(why, "ranges over the string's characters")
+			}
+		case ssa.CallInstruction:
+			if strings.HasPrefix(an.Callee(x), "unicode/utf8.") {
+				ok = false
+				why = append(why, "calls "+an.Callee(x))
+			}
 		}
-		bo, isBO := v.(*ssa.BinOp)
-		if !isBO || bo.Op != token.ADD {
-			ok = false
-			continue
-		}
-		sl, isSl := bo.X.(*ssa.Slice)
-		if !isSl || sl.X != ssa.Value(f.Params[0]) || sl.Low != nil {
-			ok = false
-		}
-		if s, isC := an.ConstString(bo.Y); !isC || s != "..." {
-			ok = false
-		}
-	}
-	c.Check("R-SHAPE", an.FuncName(f)+"/cuts-bytes", "a string that does not fit is cut to a prefix of its bytes plus the indicator (the per-field budgets, and the 64 KiB bound they add up to, are byte counts)", ok && n == 2, fpos(f), n, "exits: %d, each the string itself or str[:k] + \"...\": %v", n, ok)
+	})
+	_ = why
+	c.Check("R-SHAPE", an.FuncName(f)+"/cuts-bytes", "a string that does not fit is cut to a prefix of its bytes plus the indicator (the per-field budgets, and the 64 KiB bound they add up to, are byte counts)", ok && n >= 1, fpos(f), n, "byte slices of the input: %d; no cutting by characters: %v %v", n, ok, why)
 }
